@@ -8,6 +8,8 @@ from kani_prop import ARENA_SCALE, Attach, run_incrate, replay_incrate
 PROP = "C18"
 AR = "c18_arena.rs"
 SV = "c18_small_vec.rs"
+PL = "c18_pool.rs"
+SHIMS = ("ahash", "elsa", "indexmap", "futures", "event-listener", "bitvec", "tracing")
 
 
 def H(name, file, **kw):
@@ -58,6 +60,21 @@ def build(tier, seed):
         hs.append(H(name, SV, bounds="operation sequence %s on SmallVec<u32>, pushed values symbolic; as_slice/len/pop results vs. reference array after every step; clone and ==" % [ops[k] for k in s],
                     symbolic=["pushed values"], enumerated=["operation kinds %s" % [ops[k] for k in s]], min_covers=1,
                     timeout=600, mem_gb=12, group="c18_sv_seq", instance={"ops": [ops[k] for k in s]}))
+    # Pool interning through the dependency shims (DESIGN 8.1): FrozenCopyMap's HashMap is an association list
+    pool = [
+        ("c18_pool_names_equal", "two package names with EQUAL symbolic values (u8 newtype) interned, re-interned, looked up, resolved; reference from before the second interning re-read", ["name value"], ["equal"], 600),
+        ("c18_pool_names_distinct", "two package names with DIFFERENT symbolic values interned, re-interned, looked up, resolved; a third never-interned value is not found; early reference re-read", ["name values"], ["distinct"], 600),
+        ("c18_pool_vs_same_same", "version sets (package, value): same package, equal symbolic values", ["version set value"], ["same package", "equal values"], 900),
+        ("c18_pool_vs_same_name_other_value", "version sets: same package, different symbolic values", ["version set values"], ["same package", "distinct values"], 900),
+        ("c18_pool_vs_other_name_same_value", "version sets: different packages, equal symbolic values (must get different ids)", ["version set value"], ["two packages", "equal values"], 900),
+        ("c18_pool_solvables_unions", "two solvables with the same symbolic record, two unions over two version sets: ids dense and unique, members in the given order", ["record"], ["2 solvables", "2 unions"], 1800),
+    ]
+    if tier == "quick":
+        pool = [p for p in pool if p[0] != "c18_pool_vs_same_same"]
+    for name, bounds, sym, enum, to in pool:
+        hs.append(H(name, PL, bounds=bounds + "; Pool<VS(u8), N(u8)>; CHUNK_SIZE scaled to 4; hash maps replaced by the association-list shim",
+                    symbolic=sym, enumerated=enum, min_covers=1, timeout=to, mem_gb=20, group="c18_pool"))
+    hs.append(H("c18_pool_twin_must_fail", PL, bounds="vacuity twin", expect="fail", timeout=600, group="c18_pool"))
     return (atext, text), hs
 
 
@@ -77,7 +94,8 @@ ASSUMPTIONS = [
     "Kani 0.68 / CBMC 6.11 with its pointer/bounds/dead-object checks on the dev-profile MIR of the real Arena and SmallVec",
     "arena.rs CHUNK_SIZE scaled 128 -> 4 in the scratch copy (132 allocations across the real chunk do not finish, DESIGN P12); the claim is for the scaled constant",
     "allocation counts and SmallVec operation kinds are enumerated (they decide Vec lengths / enum variants); values and indices are symbolic; instantiations Arena<SolvableId,u32>, SmallVec<u32>",
-    "NOT decided: 'equal values share ids, different values get different ids' (Pool::intern_* deduplicate through FrozenCopyMap = HashMap, DESIGN R1)",
+    "Pool harnesses (DESIGN 8.1): the crate is built against the dependency shims, so FrozenCopyMap's std HashMap is an association list with the same map laws; hashing itself (a wrong Hash/Eq pair, collisions) is therefore NOT exercised; instantiation Pool<VS(u8), N(u8)>; whether two interned values are equal is ENUMERATED per harness (it decides whether a second slot is allocated), the values are symbolic",
+    "intern_string is not covered (String allocation with symbolic contents, DESIGN P21)",
 ]
 RULE = ("one evaluation = one CBMC property decided SUCCESS in a SUCCESSFUL harness (for the should_panic harness: SUCCESSFUL means the bounds assert fired on every path and no pointer check failed); "
         "non-trivial = all cover witnesses SATISFIED")
@@ -85,14 +103,18 @@ RULE = ("one evaluation = one CBMC property decided SUCCESS in a SUCCESSFUL harn
 
 def attaches(tier, seed):
     (atext, text), _ = build(tier, seed)
-    return [Attach(AR, "src/internal/arena.rs", "verif_c18a", text=atext), Attach(SV, "src/internal/small_vec.rs", "verif_c18s", text=text)]
+    return [Attach(AR, "src/internal/arena.rs", "verif_c18a", text=atext), Attach(SV, "src/internal/small_vec.rs", "verif_c18s", text=text),
+            Attach(PL, "src/utils/pool.rs", "verif_c18p")]
 
 
 def run(tier, seed, only):
     _, hs = build(tier, seed)
-    return run_incrate(PROP, tier, seed, only, attaches(tier, seed), hs, functions(), ASSUMPTIONS, [], RULE,
-                       scalings=[ARENA_SCALE], jobs=10)
+    return run_incrate(PROP, tier, seed, only, attaches(tier, seed), hs, functions() + [
+        source_lines("src/utils/pool.rs", r"pub fn intern_string", r"^pub struct NameDisplay"),
+        source_lines("src/internal/frozen_copy_map.rs", r"pub fn insert_copy", r"^impl<K: Eq \+ Hash, V, S: Default>")],
+        ASSUMPTIONS, ["library shims: ahash/elsa/indexmap/futures/event-listener/bitvec/tracing replaced by /verif/shims (association lists, empty logging macros)"], RULE,
+        scalings=[ARENA_SCALE], jobs=10, shims=SHIMS)
 
 
 def replay(path):
-    return replay_incrate(PROP, path, attaches("thorough", 0), scalings=[ARENA_SCALE])
+    return replay_incrate(PROP, path, attaches("thorough", 0), scalings=[ARENA_SCALE], shims=SHIMS)
